@@ -284,6 +284,10 @@ def classify_c04(case, model, why):
         return dict(kind="failing-input", why="compile(render(tree)) differs from the tree: " + case[1][:300])
     if case[1].startswith("(crash"):
         return dict(kind="failing-input", why="compiling this rendered tree panicked")
+    if "kind=surface" in tags:
+        # a tree of the round-trip theorem's domain (the model confirms it is well formed and that
+        # these are its tokens) whose rendering the real parser turns into another tree
+        return dict(kind="failing-input", why="the real parser's tree for this rendering is not the tree C04_roundtrip prescribes: " + why)
     return dict(kind="failing-input" if ("chain" in tags or "prefix" in tags or "macro" in tags) else "no-failing-input-found",
                 why="the real parser and the model's parser disagree on this text: " + why)
 
